@@ -39,6 +39,9 @@ var probes = map[string]bool{
 	"hub.Hub.registerConnection":                  true,
 	"mdns.AvahiProvider.Announce":                 true,
 	"mdns.AvahiProvider.Unannounce":               true,
+	"ship.ShipConnection.setState":                true,
+	"ship.ShipConnection.setHandshakeTimer":       true,
+	"ship.ShipConnection.handleState":             true,
 }
 
 type edit struct {
